@@ -23,7 +23,7 @@ def unescape_string(value: str, token: Token, quote: str = '"') -> str:
     return "".join(unescaped)
 
 
-def _decode_escape_sequence(  # noqa: PLR0911
+def _decode_escape_sequence(  # noqa: PLR0911, PLR0912
     value: str, index: int, token: Token, quote: str
 ) -> tuple[str, int]:
     try:
@@ -42,6 +42,8 @@ def _decode_escape_sequence(  # noqa: PLR0911
         return "\x08", index
     if ch == "f":
         return "\x0c", index
+    if ch == "0":
+        return "\0", index
     if ch == "n":
         return "\n", index
     if ch == "r":
@@ -83,12 +85,16 @@ def _decode_hex_char(value: str, index: int, token: Token) -> tuple[int, int]:
         raise PestGrammarSyntaxError("unclosed Unicode escape sequence", token=token)
 
     hex_digit_length = closing_brace_index - index
-    if hex_digit_length not in (2, 4, 6):
+    if not 2 <= hex_digit_length <= 6:  # noqa: PLR2004
         raise PestGrammarSyntaxError(
-            "expected \\u{00}, \\u{0000} or \\u{000000}", token=token
+            "expected two to six hexadecimal digits in \\u{..}", token=token
         )
 
     codepoint = _parse_hex_digits(value[index : index + hex_digit_length], token)
+    if codepoint > 0x10FFFF:  # noqa: PLR2004
+        raise PestGrammarSyntaxError(
+            "\\u{..} escape is not a Unicode code point", token=token
+        )
     index += hex_digit_length  # the index of '}', the last character of the escape
     return codepoint, index
 
